@@ -153,7 +153,7 @@ package vuego
 //@   ensures C17.push: len(s.stack) == old(len(s.stack)) + 1 &&
 //@     forall i int :: 0 <= i && i < old(len(s.stack)) ==> s.stack[i] == old(s.stack[i])
 //@   ensures C17.push.top: m != nil ==> s.stack[len(s.stack) - 1] == m
-//@   ensures C17.push.nil: m == nil ==> s.stack[len(s.stack) - 1] != nil
+//@   ensures C17.push.nil: m == nil ==> s.stack[len(s.stack) - 1] != nil && fresh(s.stack[len(s.stack) - 1])
 
 //@ func (s *Stack) Pop()
 //@   modifies s.stack, s.pooled, contents(s.stack[len(s.stack) - 1])
@@ -494,6 +494,9 @@ package vuego
 //@   modifies n.Attr, elems(n.Attr)
 //@ func (v *Vue) evalVShow(ctx, n) (err)
 //@   modifies n.Attr, elems(n.Attr), caches(v)
+//@ func (ss *SlotScope) GetSlot(name) (r)
+//@   pure
+//@   ensures r == ss.Slots[name]
 //@ func (ss *SlotScope) SetSlot(name, content)
 //@   modifies contents(ss.Slots)
 //@ func extractSlotContent(node) (r)
@@ -522,6 +525,7 @@ package vuego
 
 //@ func (v *Vue) evalFor$1(index, value) (err)
 //@   holds ctx.stack
+//@   assert C04.instance.fresh: fresh(iterNode) && iterNode != nil at "v.evaluate(ctx, []*html.Node{iterNode}, depth)"
 //@   ensures C04.balance: BALANCED(ctx)
 
 //@ func (v *Vue) propagateTemplateAttributes(ctx, node)
@@ -559,6 +563,9 @@ package vuego
 
 //@ func (v *Vue) evalSlot(ctx, node, slotScope) (res, err)
 //@   holds ctx.stack
+//@   assert C06.supplied.fields: slotContent.Props == old(slotContent.Props) && slotContent.TemplateNode == old(slotContent.TemplateNode) at "v.evaluateChildren(ctx, slotContent.TemplateNode, 0)"
+//@   assert C06.props.percall: fresh(slotProps) && slotProps != nil at "ctx.stack.Set(scopedVarName, slotProps)"
+//@   assert C06.props.scope: len(ctx.stack.stack) == old(len(ctx.stack.stack)) + 1 && fresh(slotProps) at "v.evaluateChildren(ctx, slotContent.TemplateNode, 0)"
 //@   ensures C06.balance: BALANCED(ctx)
 //@   loop 2 invariant C06.balance.loop: len(ctx.stack.stack) == old(len(ctx.stack.stack)) + 1 && (forall bi int :: 0 <= bi && bi < old(len(ctx.stack.stack)) ==> ctx.stack.stack[bi] == old(ctx.stack.stack[bi]))
 
